@@ -439,7 +439,7 @@ func (x *Exec) buildPrelude() string {
 			b.WriteString("(assert (forall ((a Str) (b Str)) (! (or (uf.strlt a b) (= a b) (uf.strlt b a)) :pattern ((uf.strlt a b)))))\n")
 			b.WriteString("(assert (forall ((a Str) (b Str) (c Str)) (! (=> (and (uf.strlt a b) (uf.strlt b c)) (uf.strlt a c)) :pattern ((uf.strlt a b) (uf.strlt b c)))))\n")
 		case k == "epoch":
-			b.WriteString("(assert (> time.epoch 0))\n")
+			b.WriteString("(assert (= time.epoch 62135596800000000000))\n") // ns between the zero time.Time and the Unix epoch
 		case strings.HasPrefix(k, "card:"):
 			ks := k[5:]
 			fn := "card." + sanitize(ks)
